@@ -91,6 +91,10 @@ def run_impl(line):
                     if s[0] == 'e': out.append(hx(X.enc(unhx(s[1]))))
                     elif s[0] == 'd': out.append(hx(X.dec(unhx(s[1]))))
                     elif s[0] == 'k': out.append(il(X.keystream(int(s[1])).ival))
+                    elif s[0] == 's':
+                        try: r = X.enc(unhx(s[1]).decode('latin-1'))
+                        except Exception: out.append('REFUSED')
+                        else: out.append(hx(r) if isinstance(r, bytes) else 'RET')
                     else: raise RuntimeError('unknown step')
                 except RuntimeError: raise
                 except Exception:
@@ -276,6 +280,9 @@ def check_impl(line, res):
                 ks = ref_rc4_ks(st, len(m))
                 if c != bytes(x ^ y for x, y in zip(m, ks)): return bad('piece differs from M xor RC4 keystream')
                 stream += m; got += c
+            elif s[0] == 's':
+                # a text message is not a byte string; when the call is refused the object must still be the same stream
+                if o_ != 'REFUSED': return None
             else:
                 only_enc = False
                 if unil(o_) != ref_rc4_ks(st, int(s[1])): return bad('keystream(n) differs from RC4')
@@ -436,6 +443,7 @@ def cases(tier, rng):
         yield rc4_line(key, [('e', b''), ('e', b''), ('e', b'Plaintext'), ('e', b'')]), 'rc4.split.empty'
         yield rc4_line(key, [('k', 16)]), 'rc4.keystream'
         yield rc4_line(key, [('k', 0), ('e', b'Attack at dawn'), ('k', 3), ('d', b'abc'), ('k', 0)]), 'rc4.mixed'
+        yield rc4_line(key, [('e', b'Attack '), ('s', b'at dawn, refused'), ('e', b'at dawn'), ('s', b'x'), ('e', b'!')]), 'rc4.split.refused'
         m = rb(rng, 300 if quick else 1500)        # i wraps around 256 several times
         yield rc4_line(key, [('e', m)]), 'rc4.long'
         yield rc4_line(key, [('e', p) for p in split_pieces(rng, m, 4)]), 'rc4.split.long'
